@@ -372,3 +372,29 @@ func Verif_C06_concurrent_deliveries() {
 	verifapi.Assert("picture-is-the-newer-update", verifapi.All(hasNew, !hasOld))
 	verifapi.Assert("no-lock-left-held", verifapi.HeldLocks() == 0)
 }
+
+// Verif_C06_seen_table_keeps_entries_for_the_full_expiry_time: one sweep of expireSeenUpdates over an
+// update ID seen at an arbitrary instant: an entry younger than seenUpdateExpireTime at the time of the
+// sweep is still there afterwards (a replay of that update - a suspected-duplicate notice has no other
+// guard - is still recognised), whatever its age below that limit.
+func Verif_C06_seen_table_keeps_entries_for_the_full_expiry_time() {
+	n := verifNetceptor("A")
+	s := n.s
+	seenAt := verifapi.Int64()
+	verifapi.Assume(verifapi.All(seenAt > 0, seenAt < 1<<60))
+	s.seenUpdates["u"] = time.Unix(0, seenAt)
+	go s.expireSeenUpdates()
+	verifapi.Quiesce()
+	verifapi.AdvanceTime(s.seenUpdateExpireTime / 2)
+	verifapi.Quiesce()
+	after := time.Now()
+	verifapi.Cover("one-sweep")
+	s.seenUpdatesLock.RLock()
+	_, kept := s.seenUpdates["u"]
+	s.seenUpdatesLock.RUnlock()
+	if !kept {
+		verifapi.Assert("entry-dropped-only-after-the-full-expiry-time", after.Sub(time.Unix(0, seenAt)) >= s.seenUpdateExpireTime)
+	}
+	s.cancelFunc()
+	verifapi.Quiesce()
+}
